@@ -27,6 +27,10 @@ func harness_C11_group() {
 		if mask&(1<<i) != 0 {
 			on[s] = true
 			children = append(children, config.Node{Name: s, Args: []string{"concurrency", fmt.Sprint(limit)}})
+			if verifParam("double", 0) == 1 {
+				// a second, weaker limit of the same scope (the scope's limiter becomes a combination of two)
+				children = append(children, config.Node{Name: s, Args: []string{"concurrency", fmt.Sprint(limit + 1)}})
+			}
 		}
 	}
 	g := &Group{instName: "limits"}
